@@ -52,7 +52,7 @@ fn auth_check_all_cases() {
     let cred = (any_str(), any_str());
     unsafe { PRESENTED = cred; CMD_VERDICT = kani::any(); }
     let user = if has { Some(cred) } else { None };
-    let ret = kani::block_on(a.check(&user));
+    let ret = run_ready(a.check(&user));
     unsafe {
         let mut listed = false;
         let mut i = 0;
@@ -68,5 +68,11 @@ fn auth_check_all_cases() {
         kani::cover!(a.required && has && ret && listed);
         kani::cover!(a.required && has && !ret);
     }
+}
+/// every stub future is immediately ready, so the task completes within one poll (cheaper than kani::block_on's loop)
+pub fn run_ready<F: std::future::Future>(f: F) -> F::Output {
+    let mut f = std::pin::pin!(f);
+    let mut cx = std::task::Context::from_waker(std::task::Waker::noop());
+    match f.as_mut().poll(&mut cx) { std::task::Poll::Ready(v) => v, std::task::Poll::Pending => panic!("stub future pending") }
 }
 fn main() {}
